@@ -232,6 +232,18 @@ pub fn c03(a: &Args) {
                 let s = guarded(|| d.handle_stream_msg(&msg)).unwrap_or_else(|e| format!("panic: {e}"));
                 if s != want.to_string() { out.fail("stream-sat", &file.text(), &msg, &s, &want.to_string()); }
             }
+            // per-variable form: every variable is decided on its own (duplicates, both polarities, any order)
+            if qi % 7 == 0 && l.len() <= 3 {
+                let nv = 2 + r2.below(3);
+                let mut vars: Vec<i32> = (0..nv).map(|_| { let v = 1 + r2.below(file.n as usize) as i32; if r2.chance(0.5) { v } else { -v } }).collect();
+                if r2.chance(0.4) { let x = vars[0]; vars.push(x); }
+                if r2.chance(0.4) { let x = vars[0]; vars.push(-x); }
+                let msg = if l.is_empty() { format!("sat v {}", fmt_ints(&vars)) } else { format!("sat a {} v {}", fmt_ints(l), fmt_ints(&vars)) };
+                let want_v: Vec<String> = vars.iter().map(|x| { let mut al = l.clone(); al.push(*x); (tt.count_with(&al) > 0).to_string() }).collect();
+                let s = guarded(|| d.handle_stream_msg(&msg)).unwrap_or_else(|e| format!("panic: {e}"));
+                out.count("stream_sat_with_variables", 1);
+                if s != want_v.join(";") { out.fail("stream-sat-vars", &file.text(), &msg, &s, &want_v.join(";")); }
+            }
             if qi % 3 == 0 || l.len() > 7 { out.query("sat", &fmt_ints(l), &got); }
             // the imperative propagation itself: exact mark vector of one call on a fresh vector
             if qi % 4 == 1 {
